@@ -1,5 +1,6 @@
 
 import io
+from shlex import quote
 from subprocess import check_output, STDOUT, CalledProcessError
 
 from io import StringIO
@@ -79,6 +80,8 @@ def apply_possible_filter(git_path, path=None):
     except IOError:
         # Nothing to filter (e.g. the file was deleted in the working tree)
         return path
+    # git replaces %f in the command by the name of the file being filtered
+    filter_cmd = filter_cmd.replace('%f', quote(git_path))
     with f:
         output = check_output(
             filter_cmd,
